@@ -145,7 +145,8 @@ def lookupWait (deadline : Nat) : Nat → NetM Bool
 /-- `_lookup_2_master(number, lookup_type)` -/
 def lookup2Master (number : Int) (lookupType : Nat) : NetM Int := do
   let n ← getNode
-  setHdr fun h => { (h.setTy lookupType) with toNode := 0, fromNode := n.a.addr }
+  let id ← takeId
+  setHdr fun _ => { fromNode := n.a.addr, toNode := 0, frameId := id, msgType := .int lookupType, reserved := 0 }
   let msg ← liftPy (if lookupType = MESH_ID_LOOKUP then packH number else bytes1 number)
   modNode fun nd => { nd with frameBuf := { nd.frameBuf with message := msg } }
   if !(← nodeWrite F 0 TX_NORMAL) then return -1
@@ -323,7 +324,7 @@ def meshSend (toId : Nat) (ty : Int) (msg : Bytes) : NetM Bool := do
     match (← sendLookupLoop toId deadline 1000 5) with
     | none => return false
     | some a => to := a.toNat
-  if to = n.nodeId then to := n.a.addr
+  else if to = n.nodeId then to := n.a.addr
   meshWrite to ty msg
 
 /-- master `release_address(address)` (API) -/
